@@ -11,7 +11,7 @@ LEVEL_TEXT = "Coq theorems about the fan-out loop (each destination offered the 
 LEVEL_NOTE = 'Trusted: Coq kernel; hand-written model Model/Core.v + Model/Prog.v tied to /repo by per-run correspondence on generated logging programs (real control flow, real threads for hand-offs); Python harness. Destinations that mutate the message or log re-entrantly are outside the model.'
 
 FAMILIES = [
-    progs.program_family("programs", oracles.oracle_c08, 150, 3000, deep=dict(depth=6), **dict(p_reserved=0.1, p_globals=0.4, fault=0.8, registry_rate=0.4, p_fault_ser=0.1)),
+    progs.program_family("programs", oracles.oracle_c08, 150, 3000, deep=dict(depth=6), **dict(p_reserved=0.1, p_globals=0.4, fault=0.8, registry_rate=0.4, p_fault_ser=0.1, p_raw=0.1)),
 ]
 
 
